@@ -20,6 +20,7 @@ thread_local! {
   static OBS: RefCell<BTreeMap<usize, FunObs>> = const { RefCell::new(BTreeMap::new()) };
   static STEPS: Cell<u64> = const { Cell::new(0) };
   static STEP_LIMIT: Cell<u64> = const { Cell::new(0) };
+  static LIMIT_HIT: Cell<bool> = const { Cell::new(false) };
 }
 
 pub fn enable(on: bool) {
@@ -27,10 +28,16 @@ pub fn enable(on: bool) {
   STEPS.with(|s| s.set(0));
 }
 
-/// Abort the run (by panicking with a recognisable message) after this many instructions; 0 = off
+/// End the run (every active `execute` returns a runtime error) after this many instructions; 0 = off
 pub fn set_step_limit(limit: u64) {
   STEP_LIMIT.with(|s| s.set(limit));
   STEPS.with(|s| s.set(0));
+  LIMIT_HIT.with(|s| s.set(false));
+}
+
+/// Did the last run end because of the step limit
+pub fn limit_hit() -> bool {
+  LIMIT_HIT.with(|s| s.get())
 }
 
 pub fn steps() -> u64 {
@@ -41,8 +48,9 @@ pub fn take() -> Vec<FunObs> {
   OBS.with(|o| std::mem::take(&mut *o.borrow_mut()).into_values().collect())
 }
 
+/// returns true when the step limit is exhausted: the interpreter loop then returns
 #[inline]
-pub(super) fn probe(vm: &Vm) {
+pub(super) fn probe(vm: &Vm) -> bool {
   let limit = STEP_LIMIT.with(|s| s.get());
   if limit > 0 {
     let n = STEPS.with(|s| {
@@ -50,12 +58,12 @@ pub(super) fn probe(vm: &Vm) {
       s.get()
     });
     if n > limit {
-      STEPS.with(|s| s.set(0));
-      panic!("verif step limit exceeded");
+      LIMIT_HIT.with(|s| s.set(true));
+      return true;
     }
   }
   if !ENABLED.with(|e| e.get()) {
-    return;
+    return false;
   }
   let fun = vm.current_fun;
   let code = fun.chunk().instructions();
@@ -77,6 +85,7 @@ pub(super) fn probe(vm: &Vm) {
       entry.min_left = left;
     }
   });
+  false
 }
 
 impl Vm {
